@@ -274,6 +274,10 @@ pub struct ArgCase {
     /// `example.*`; 3 rule on the entity, exception on the subdomain
     #[serde(default)]
     pub placement: u8,
+    /// what separates the arguments after each comma: 0 ", " 1 "," 2 ",\u{a0}" 3 ", \u{3000}" 4 ",\t"
+    /// 5 ",\u{2003} " (padding before an argument is not part of it, whatever kind of white space)
+    #[serde(default)]
+    pub sep: u8,
 }
 impl Case for ArgCase {
     fn smaller(&self) -> Vec<Self> {
@@ -330,7 +334,11 @@ pub fn check_args(c: &ArgCase, obs: &mut Obs) -> Result<(), String> {
         obs.exclude("single {...} argument (object syntax is documented as unsupported)");
         return Ok(());
     }
-    let inner = parts.join(", ");
+    let sep = [", ", ",", ",\u{a0}", ", \u{3000}", ",\t", ",\u{2003} "][c.sep as usize % 6];
+    let inner = parts.join(sep);
+    if c.sep % 6 >= 2 {
+        obs.label("unicode-or-tab-padding");
+    }
     let (rule_loc, exc_loc, page) = match c.placement % 4 {
         0 => ("example.com", "example.com", "https://example.com/"),
         1 => ("www.example.com", "example.com", "https://www.example.com/"),
@@ -439,7 +447,7 @@ fn decode_args(t: &mut Tape) -> ArgCase {
         values.push(v);
         spelling.push(sp);
     }
-    ArgCase { values, spelling, exception: [0u8, 0, 0, 0, 1, 2, 3][t.pick(7)], placement: if t.chance(1, 2) { 0 } else { t.pick(4) as u8 } }
+    ArgCase { values, spelling, exception: [0u8, 0, 0, 0, 1, 2, 3][t.pick(7)], placement: if t.chance(1, 2) { 0 } else { t.pick(4) as u8 }, sep: if t.chance(2, 3) { 0 } else { t.pick(6) as u8 } }
 }
 
 pub fn check(ctx: &mut Ctx) {
